@@ -9,7 +9,8 @@ CLAIMS = {
     'C01': ('RF8 folder/interpreter signature agreement, RF7h pattern coverage, RF9 x86 pattern width/signedness/condition codes and '
             'integer memory classes, RF9m ModRM/SIB decision table, RF18 flag-producer preservation, RF7i replacement-language reader '
             'agreement, RF33 indirect-jump CFG edges, RF34 narrowing in store-to-load forwarding, RF23/25/26/38/41 folding tables, RF32 side-effect '
-            'opcode protection, RF36 liveness-scan agreement, RF39/RF40 address-scale and flag discipline, RF43 spill-slot reuse',
+            'opcode protection, RF36 liveness-scan agreement, RF39/RF40 address-scale and flag discipline, RF43 spill-slot reuse, RF44 lost-copy guard, '
+            'RF48 branch reversal, RF49 overlap predicate',
             'Decides named structural clauses that are necessary conditions of generator/interpreter equivalence: the GVN constant '
             'folder applies per opcode the same C operator on the same operand width/signedness as the interpreter; every opcode that '
             'reaches instruction selection has a pattern; x86 encodings carry the width, signedness and condition code the opcode name '
@@ -33,7 +34,8 @@ CLAIMS = {
             'setter and lazy handler re-targets that thunk on every path that can follow a fresh load. Behavioural equivalence across '
             'interfaces and call orders is not decided.', '3 C03'),
     'C04': ('RF18 flag-producer preservation, RF7e extension-map agreement, RF7g label-operand positions, RF7b call-family coverage, '
-            'RF28 alloca consolidation by path-wise linear forms, RF29 simplified memory operands, RF16j label forwarding-pointer scrub',
+            'RF28 alloca consolidation by path-wise linear forms, RF29 simplified memory operands, RF16j label forwarding-pointer scrub, RF38/41/48 '
+            'folding and reversal tables, RF45 fresh merge registers, RF46 top alloca precedes calls, RF50 fresh inline registers',
             'Decides that the link-time shortcut set is disjoint from overflow-flag producers, that result/argument extension maps agree '
             'with the target\'s, that label bookkeeping covers every label-carrying opcode, that the inliner\'s consolidated alloca size '
             'covers every offset it hands out, that memory operands it builds are base-only, and that label forwarding pointers used '
@@ -41,14 +43,15 @@ CLAIMS = {
             '3 C04'),
     'C05': ('ABI constant agreement (RF10), block class mapping (RF10b), argument-register counter discipline (RF10c/d), long double '
             'stack-slot alignment (RF10e), trampoline cache-key completeness and separation (RF12/RF12b), container growth not skipped '
-            '(RF3b), narrowing maps (RF7f), extension map (RF7e)',
+            '(RF3b), %al count (RF10h), block stack placement (RF10i), per-call trampoline buffer (RF47), narrowing maps (RF7f), extension map (RF7e)',
             'Decides that every copy of the SysV argument/return register tables and counts in the FFI trampoline generator, the code '
             'generator and c2mir agree with the psABI and with each other; that block classes map to the register classes the psABI '
             'gives them; that register counters advance exactly for arguments passed in registers; that long double stack slots are '
             '16-byte aligned at every caller/callee/va site; and that the trampoline cache key covers every input.',
             '3 C05'),
     'C06': ('ABI constant agreement for the callee side (RF10/RF10b/RF10e): callee-saved set, vararg save-area layout, incoming long '
-            'double slot alignment; save/restore symmetry of the machine-code templates (RF11); single-return invariant (RF30)',
+            'double slot alignment; VA_START and shim block tables (RF10f/g); save/restore symmetry of the machine-code templates (RF11); '
+            'single-return invariant (RF30); x86 pattern table incl. emission-time rewrites (RF9)',
             'Decides table/constant agreement with the psABI, template symmetry, and that no pass can create a second return that the '
             'single epilogue would miss; does not decide register allocation.', '3 C06'),
     'C10': ('tagged-union discipline in the text writer (RF6), writer/scanner vocabulary agreement (RF7c), scanner input function '
@@ -64,7 +67,8 @@ CLAIMS = {
             'Decides the memory-safety clause only: every write into and copy within the decoder\'s fixed buffers is dominated by a '
             'bound check on the same index expression that covers the whole extent touched, also through copy helpers. Losslessness '
             'and detection of every corruption are not decided.', '3 C12'),
-    'C13': ('must-pass-through rules on setup_global / MIR_link / MIR_load_module (RF16c-e), interned-key discipline (RF24), RF6 on add_item',
+    'C13': ('must-pass-through rules on setup_global / MIR_link / MIR_load_module (RF16c-e), interned-key discipline (RF24), add_item as a '
+            'transition system over declaration orders (RF16l), RF6 on add_item',
             'Decides necessary structural conditions: the environment entry is overwritten on every load; every import/export/forward '
             'is bound on every non-error path from the module item table; the redefinition error is guarded by exactly the reference '
             'guard set; table probes use interned names. History semantics are not decided.', '3 C13'),
@@ -74,7 +78,7 @@ CLAIMS = {
             'that forward/export addresses come from the definition found in the module item table. Byte contents are not decided.',
             '3 C14'),
     'C15': ('operand-mode table vs specification (RF17), call-family coverage (RF7b) and operand classification (RF19c), memory-operand '
-            'decision table (RF19), register look-up rule (RF16h)',
+            'decision tables (RF19, RF19e), register-required operands (RF19d), register look-up rule (RF16h)',
             'Decides the static table that the run-time validator consults, row by row against the documented grammar, and that error '
             'branches call the error function with a specific code.', '3 C15'),
     'C16': ('duplicate/restore protocol on every generation path (RF16a/b/i), scratch use of insn data scrubbed (RF16j), no instruction write '
@@ -82,13 +86,13 @@ CLAIMS = {
             'positions (RF7g)',
             'Decides the must-pass-through protocol of generate_func_code, sibling agreement of saved/restored fields, and that every '
             'forwarding pointer parked in the original labels while instructions are copied is reset on every path.', '3 C16'),
-    'C17': ('who-may-call allocator confinement (RF1), init/finish create-destroy pairing (RF2), realloc old-size contract (RF3), '
+    'C17': ('who-may-call allocator confinement (RF1), init/finish create-destroy pairing (RF2/RF27), single owner of item data (RF2b), realloc old-size contract (RF3), '
             'code-memory write protocol (RF4)',
             'Decides for every function of the three library units that no C-library allocator is referenced outside the default '
             'callbacks, that every MIR_realloc passes the container\'s true previous capacity, that every container created at init is '
             'destroyed at finish, and that code memory is written only between protect(write) and protect(exec). Heap ownership that '
             'moves through data structures at run time (double free, use after free) is not decided.', '3 C17'),
-    'C18': ('process-wide mutable state (RF5) and non-reentrant libc who-may-call',
+    'C18': ('process-wide mutable state (RF5), non-reentrant libc who-may-call, protect window within the written pages (RF4)',
             'Decides the property\'s second sentence: no variable with static storage in any library unit is written or escapes into a '
             'pointer through which its type is written. Schedules are not explored.', '3 C18'),
     'C20': ('opcode template signature agreement under every operand kind (RF8), opcode coverage (RF7h), operand union discipline (RF6), '
